@@ -59,3 +59,16 @@ Proof.
   { destruct Hsil as [_ [_ [_ [_ [Hsp _]]]]]. apply (spreads_silent_defined pi Hpi S F D Hsp). }
   repeat split; try assumption. intros Hv. apply (R4 Hs Hv).
 Qed.
+
+(** what C01's [doc_ok] needs from validation, conjunct by conjunct (C01 Properties header, items
+    (a), (b) literal half, (c), (f)); the other items are C01's own or come from [schema_ok] / C05 *)
+Theorem accepted_doc_ok_conjuncts pi S F D :
+  order_ok pi -> schema_ok S = true -> validate_model_memo repaired pi S F D = Done [] ->
+  valid_5_5_1 S F D = true /\
+  (valid_5_7 S D = true /\ (values_typed_input S F D = true -> valid_5_6 S F D = true)) /\
+  valid_root S D = true /\
+  (fields_defined S F D = true /\ valid_5_3_1 S F D = true).
+Proof.
+  intros Hpi Hs H. destruct (memo_accepted_valid pi S F D Hpi Hs H) as [_ [_ [R [F1 [_ [FD [_ [C [_ [V D7]]]]]]]]]].
+  repeat split; assumption.
+Qed.
